@@ -13,7 +13,9 @@ CRLF, pushes it through a real ``Line`` (exactly one ``line`` event, nothing lef
 that line with the real ``parsemsg``.  See DESIGN.md section 4, C18.
 """
 import itertools
+import copy
 import random
+import re
 
 from vlib.batch import Batch, unjson
 from vlib.ref_lines import join_prefix_tuple, ref_parse_irc, ref_split
@@ -52,7 +54,7 @@ IRC_REQUIRED = ['ctor_' + n for n in IRC_FUNCS] + [
     'irc_line_event_observed', 'irc_roundtrip_evaluated', 'irc_arg_with_space', 'irc_arg_with_colon', 'irc_arg_with_cr',
     'irc_arg_with_lf', 'irc_arg_with_nul', 'irc_arg_empty', 'irc_arg_non_ascii', 'irc_arg_bytes', 'irc_arg_none',
     'irc_hostile_command', 'irc_hostile_prefix', 'irc_prefix_nick_user_host', 'irc_late_args_mutation',
-    'irc_all_command_functions_called', 'irc_benign_call_serialised']
+    'irc_all_command_functions_called', 'irc_benign_call_serialised', 'irc_same_line_received_twice', 'irc_numeric_line_received_twice']
 REQUIRED = LINE_REQUIRED + IRC_REQUIRED
 REQUIRED_OBLIGATIONS = ['LINES', 'TAIL_HELD', 'ISOLATION', 'ONE_LINE', 'ROUNDTRIP']
 WORKER_TIMEOUT = {'quick': 300, 'thorough': 1500}
@@ -60,6 +62,7 @@ WORKER_TIMEOUT = {'quick': 300, 'thorough': 1500}
 K_INJ = 'irc.bare-cr-injection'
 K_COLON = 'irc.roundtrip-colon-or-empty-arg'
 K_WS = 'irc.parsemsg-splits-on-any-whitespace'
+NUMERIC_CMD = re.compile(r'^[0-9]+$')
 KEY_ORDER = [K_INJ, K_COLON, K_WS]
 
 
@@ -90,6 +93,11 @@ def harness():
         def __init__(self):
             super().__init__(channel='c18')
             self.lines = []
+            self.all = []      # (name, args) of every event dispatched anywhere in the tree
+
+        @handler(channel='*', priority=101)
+        def _v_on_any(self, event, *args, **kwargs):
+            self.all.append((event.name, args))
 
         @handler('line', priority=100)
         def _v_on_line(self, *args):
@@ -614,6 +622,32 @@ def run_irc_case(case):
     except Exception as e:
         problems.append(('ROUNDTRIP', {'problem': 'parsemsg raised', 'error': repr(e), 'line': line}, 'raised'))
         return res
+    first_parse = copy.deepcopy((ptuple, pcmd, pargs))
+    # -- 5. parsing is a function of the line: the same line received again (by a real IRC component, then parsed directly once more)
+    #       gives the same fields every time - whatever an earlier reception did with what it was handed
+    try:
+        rx = h['Rec']()
+        irc = h['IRC']().register(rx)
+        rx.settle()
+        seen = []
+        for _ in range(2):
+            n0 = len(rx.all)
+            rx.fire(h['read'](data), irc.channel)
+            rx.settle()
+            seen.append([(n, repr(a)) for n, a in rx.all[n0:] if n not in ('read', 'line', 'exception') and not n.endswith(('_done', '_success', '_complete', '_failure'))])
+        again = h['parsemsg'](line)
+        oblig['ROUNDTRIP'] += 1
+        marks.add('irc_same_line_received_twice')
+        if NUMERIC_CMD.match(pcmd or ''):
+            marks.add('irc_numeric_line_received_twice')
+        # (what an IRC component does with a line whose command cannot name an event is not this property's subject: exception events are ignored)
+        if seen[0] != seen[1] or tuple(again) != first_parse or (ptuple, pcmd, pargs) != first_parse:
+            problems.append(('ROUNDTRIP', {'problem': 'the same serialised line gives different results when it is received / parsed again',
+                                           'line': line, 'events_first_reception': seen[0][:4], 'events_second_reception': seen[1][:4],
+                                           'first_parse': list(first_parse), 'parse_after_the_receptions': list(again),
+                                           'exceptions': [repr(e[1]) for e in rx.exceptions[:2]]}, 'stateful'))
+    except Exception as e:  # noqa: BLE001
+        problems.append(('ROUNDTRIP', {'problem': 'receiving the serialised line with a real IRC component raised', 'error': repr(e), 'line': line}, 'stateful-raised'))
     if ptuple != (None, None, None) and ptuple[1] is not None:
         marks.add('irc_prefix_nick_user_host')
     if (pprefix, pcmd, pargs) != (own_prefix, own_cmd, own_args):
